@@ -173,6 +173,12 @@ def cases(ctx):
         ("literal.multi_key.in_list", "Value.in_([3, {'name': 'x', 'path': [a]}])", [("a", U)]),
         ("literal.multi_key.in_kwargs", "Value.items_contain(cfg={'name': 'x', 'xpath': [a]})", [("a", U)]),
         ("literal.nested_two_levels", "Value.equal_to({'name': 'copy', 'src': {'path': [a, 0]}})", [("a", U)]),
+        # path-like keys deeper than the writer / reader look (three and four containers down, through lists and keyword values)
+        ("literal.nested_three_levels", "Value.equal_to({'cfg': {'src': {'path': [a]}}})", [("a", U)]),
+        ("literal.nested.list_map_map", "Value.equal_to([{'src': {'Path.length': [a]}}, 2])", [("a", U)]),
+        ("literal.nested.kwargs_list_map", "Value.items_contain(sources=[{'path': a}])", [("a", U)]),
+        ("literal.nested_four_levels", "Value.in_([[{'k': {'mypath': a, 'n': 1}}]])", [("a", U)]),
+        ("literal.nested.escaped_deep", "Value.equal_to({'cfg': {'src': {'\\\\path': [a]}}})", [("a", U)]),
         ("path.in_map_value", "Value.equal_to({'k': DataPath('ref'), 'j': a})", [("a", "int")]),
         # data paths as values of a mapping argument whose keys themselves look like path specs
         ("path.in_kwargs.kwname_path", "Value.items_contain(path=DataPath('lim', s))", [("s", "str")]),
